@@ -350,7 +350,16 @@ func C11(c *hx.Ctx) {
 				nt = 0
 			}
 			c.Count(1, nt)
-			monitorRead(c, h, bs, &slow)
+			done := make(chan struct{})
+			go func() { monitorRead(c, h, bs, &slow); close(done) }()
+			select {
+			case <-done:
+			case <-time.After(150 * time.Second):
+				// monitorRead gives up by itself after 60 s as long as calls return: a call is stuck
+				c.Violation(map[string]string{"kind": "stall", "format": h.format, "origin": h.origin}, fmt.Sprintf("%s reader: a call did not return within 150 s (input %d bytes, origin %s)", h.format, len(h.data), h.origin),
+					map[string]any{"format": h.format, "origin": h.origin, "buf": bs, "hex": hexHead(clampDict(h.format, h.data), 8192), "len": len(h.data)})
+				c.Finish() // the stuck goroutine cannot be stopped; end the check with what was observed
+			}
 		}
 		if i%50000 == 0 {
 			mu.Lock()
